@@ -216,6 +216,10 @@ class _Child(object):
             st["listener_fd"] = -1
         live, zombies = _children_of(os.getpid())
         st["children"], st["zombies"] = live, zombies
+        if getattr(self, "sigchld_trace", None) is not None:
+            tr = self.sigchld_trace
+            st["sigchld"] = dict(runs=len(tr) // 2, last_exit_age=round(time.time() - tr[-1][1], 2) if tr else None,
+                                 inside=bool(tr) and tr[-1][0] == "enter", handler=repr(signal.getsignal(signal.SIGCHLD))[:80])
         if COUNTERS.event_log:
             c = d = 0
             try:
@@ -368,6 +372,18 @@ class _Child(object):
             self.server = srvmod.OneShotServer(svc, **kw)
         elif self.kind == "forking":
             COUNTERS.event_log = os.path.join(a.scratch, "events.log")
+            # diagnostics only (no behaviour is changed): when did the server's SIGCHLD handler run, and what does the process
+            # consider its SIGCHLD handler to be
+            orig_h = srvmod.ForkingServer._handle_sigchld.__func__
+            trace = self.sigchld_trace = []
+
+            def traced(cls, signum, unused, _orig=orig_h, _trace=trace):
+                _trace.append(("enter", time.time()))
+                try:
+                    return _orig(cls, signum, unused)
+                finally:
+                    _trace.append(("exit", time.time()))
+            srvmod.ForkingServer._handle_sigchld = classmethod(traced)
             self.server = srvmod.ForkingServer(svc, **kw)
             signal.signal(signal.SIGUSR1, self._on_usr1)
         else:
